@@ -4,11 +4,11 @@
    alloc(0)), 961d315 (pool deallocall), 942c78c (heap size overflow), b8d094a (heap realloc-shrink
    coalescing), 942989e (span count overflow), 532034f (aligned request overflow), 9ef0717 (heap
    deallocall clears the used marks), d9328b9 (heap get_ptr_node refuses the end node), 23ac203 (heap
-   region geometry: room for two nodes, aligned end node): every statement is the full-strength one,
-   over ALL histories with sizes anywhere in 0 .. 2^64-1; one [_refuted] is left (AlignedAllocator
-   alloc(0) returns a pointer, open finding).  The
-   only hypotheses are the [*cfg_ok] facts about the buffer (a real object that does not wrap the
-   address space); for the heap, hcfg_ok's size clause is exactly the check of add_memory_region. *)
+   region geometry: room for two nodes, aligned end node), ccd321a (aligned alloc(0) returns nilptr):
+   every statement is the full-strength one, over ALL histories with sizes anywhere in 0 .. 2^64-1; no
+   [_refuted]/[_partial] pair is left.  The only hypotheses are the [*cfg_ok] facts about the buffer
+   (a real object that does not wrap the address space); for the heap, hcfg_ok's size clause is
+   exactly the check of add_memory_region. *)
 From Coq Require Import ZArith List Bool Permutation.
 From Base Require Import LuaInt.
 From C11 Require Import Gen Model Heap HeapA Spec SpecHeap ProofsArena ProofsStack ProofsPool ProofsHeap ProofsHeapNaf ProofsHeapBytes RefineHeap RefineTop Iface ProofsIface Aligned ProofsAligned.
@@ -359,8 +359,8 @@ Theorem C11_aligned_fits_init : aligned_fits_full.
 Proof. exact aligned_fits_full_proof. Qed.
 Print Assumptions C11_aligned_fits_init.
 
-(* "If size is zero ... returns nilptr" is false of AlignedAllocator:alloc (open finding): alloc(0)
-   takes #pointer + ALIGN - 1 bytes from the wrapped allocator and returns a pointer *)
-Theorem C11_aligned_alloc_zero_refuted : ~ aligned_alloc_zero_nil_full.
-Proof. exact aligned_alloc_zero_refuted_proof. Qed.
-Print Assumptions C11_aligned_alloc_zero_refuted.
+(* "If size is zero or the operation fails, then returns nilptr" (doc of AlignedAllocatorT:alloc and
+   of the Allocator interface; repair ccd321a): alloc(0) returns nilptr and leaves the allocator alone *)
+Theorem C11_aligned_alloc_zero : forall c s, aligned_alloc c s 0 = Some (s, 0).
+Proof. exact aligned_alloc_zero_proof. Qed.
+Print Assumptions C11_aligned_alloc_zero.
